@@ -85,6 +85,18 @@ def sarif_result(rnd, tool, uid, by_index=False):
     if rnd.random() < 0.2: res["codeFlows"] = [{"threadFlows": [{"locations": [{"location": locs[0]}]}]}]
     return res
 
+NONASCII_LINES = ["x = call(arg, 'é', other)", "   r = requests.get('ü✓', verify=False)  # ñ", "plain_ascii_line = call(a, b)", "naïve = f(ß, 1)", "s = '日本語'; g(s, t)"]
+def sarif_result_bytes(rnd, uid):
+    """a Semgrep result the way semgrep writes it: 1-based UTF-8 BYTE columns and a snippet holding the complete source lines of the region.
+    -> (sarif result, reference location in CHARACTER columns)"""
+    rule = rnd.choice(RULES["semgrep"]); n = rnd.choice((1, 1, 2, 3)); lines = [rnd.choice(NONASCII_LINES) for _ in range(n)]
+    l0 = rnd.randint(1, 9)
+    c0 = rnd.randint(0, len(lines[0]) - 2); c1 = rnd.randint((c0 + 1) if n == 1 else 1, len(lines[-1]))      # character offsets (0-based start, exclusive end)
+    b0 = len(lines[0][:c0].encode("utf-8")) + 1; b1 = len(lines[-1][:c1].encode("utf-8")) + 1
+    uri = rnd.choice(PATHS)
+    res = {"ruleId": rule, "message": {"text": "m"}, "locations": [{"physicalLocation": {"artifactLocation": {"uri": uri}, "region": {"startLine": l0, "startColumn": b0, "endLine": l0 + n - 1, "endColumn": b1, "snippet": {"text": "\n".join(lines)}}}}]}
+    return res, (rule, uri, (l0, b0, l0 + n - 1, b1), (l0, c0 + 1, l0 + n - 1, c1 + 1))
+
 def gen_sarif(rnd, tool, uid):
     name = {"semgrep": rnd.choice(("Semgrep OSS", "semgrep", "Semgrep PRO")), "codeql": "CodeQL"}[tool]
     runs = []; shape = []
@@ -99,6 +111,10 @@ def gen_sarif(rnd, tool, uid):
         if other == "codeql" and rnd.random() < 0.3:
             fr["results"].append({"ruleId": "py/file-level", "message": {"text": "m"}, "locations": [{"physicalLocation": {"artifactLocation": {"uri": "a.py"}}}]}); shape.append("foreign-run-result-without-region")
         runs.insert(rnd.randint(0, len(runs)), fr); shape.append("foreign-run")
+    if tool == "semgrep" and rnd.random() < 0.5:
+        extra = [sarif_result_bytes(rnd, uid) for _ in range(rnd.randint(1, 3))]
+        runs[0]["results"] += [e[0] for e in extra]; runs[0].setdefault("_ref_char_locations", []).extend(e[1] for e in extra)
+        shape.append("byte-columns+" + ("multi-line" if any(e[1][3][0] != e[1][3][2] for e in extra) else "single-line") + "-snippet")
     if len(runs) > 1: shape.append("multi-run")
     if any(len(r["locations"]) > 1 and len({l["physicalLocation"]["artifactLocation"]["uri"] for l in r["locations"]}) < len(r["locations"]) for run in runs for r in run["results"]): shape.append("two-locations-one-file")
     return {"version": "2.1.0", "runs": runs}, "+".join(sorted(set(shape)))
@@ -108,12 +124,14 @@ def ref_sarif(doc, tool):
     for run in doc["runs"]:
         nm = run["tool"]["driver"]["name"]
         if not (("semgrep" in nm.lower()) if tool == "semgrep" else ("CodeQL" in nm)): continue   # other tools' runs are foreign entries
+        refs = {(r_, u_, tuple(byt)): tuple(loc) for r_, u_, byt, loc in run.get("_ref_char_locations", [])}
         for res in run["results"]:
             rule = res.get("ruleId") or run["tool"]["extensions"][res["rule"]["toolComponent"]["index"]]["rules"][res["rule"]["index"]]["id"]
             byfile = collections.defaultdict(list)
             for loc in res["locations"]:
-                r = loc["physicalLocation"]["region"]
-                byfile[loc["physicalLocation"]["artifactLocation"]["uri"]].append((r["startLine"], r["startColumn"], r["endLine"], r["endColumn"]))
+                r = loc["physicalLocation"]["region"]; uri_ = loc["physicalLocation"]["artifactLocation"]["uri"]
+                # Semgrep's columns count UTF-8 bytes; the codemods work in characters: where the generator knows the character columns, those are the reference
+                byfile[uri_].append(refs.get((rule, uri_, (r["startLine"], r["startColumn"], r["endLine"], r["endColumn"])), (r["startLine"], r["startColumn"], r["endLine"], r["endColumn"])))
             for f, locs in byfile.items(): ref_add(out, rule, f, locs, rule)
     return out
 
